@@ -235,7 +235,9 @@ class AddInitializersToInputsPass(ir.passes.InPlacePass):
 
     def call(self, model: ir.Model) -> ir.passes.PassResult:
         count = 0
-        for graph in model.graphs():
+        # Only the main graph: the inputs of a subgraph are the formal parameters of
+        # its control flow operator (an If branch must have none)
+        for graph in (model.graph,):
             inputs_set = set(graph.inputs)
             for initializer in graph.initializers.values():
                 if initializer not in inputs_set:
